@@ -83,10 +83,43 @@ def _peel_rewrites(v):
         else:
             return v, out
 
+def method_closure(pkg, cname, fn, depth=3):
+    """the function and the methods of its class it calls through self (transitively): what it computes is written there"""
+    out, todo = [fn], [(fn, 0)]
+    while todo:
+        f, d = todo.pop()
+        if d >= depth:
+            continue
+        for c in ast.walk(f):
+            if isinstance(c, ast.Call) and isinstance(c.func, ast.Attribute) and isinstance(c.func.value, ast.Name) and c.func.value.id in ("self", "cls"):
+                g = pkg.resolve(cname, c.func.attr)[1]
+                if g is not None and not any(g is x for x in out):
+                    out.append(g)
+                    todo.append((g, d + 1))
+    return out
+
+
+def _concat_parts(v):
+    """the pieces of a string built by `+`, an f-string or str.format, in order"""
+    if v[0] == "binop" and v[1] == "Add":
+        return _concat_parts(v[2]) + _concat_parts(v[3])
+    if v[0] == "fstr":
+        out = []
+        for p_ in v[1]:
+            if p_[0] == "fmt" and p_[2] is None and p_[3] == -1:
+                out += _concat_parts(p_[1])
+            else:
+                out.append(p_)
+        return out
+    if v == ("const", ""):
+        return []
+    return [v]
+
+
 def _alias_rule(ctx, pkg):
     fn = pkg.method("Species", "alias")
     ctx.saw(SP, "Species.alias")
-    fl = Flow(fn, SP)
+    fl = Flow(fn, SP, resolver=lambda name: pkg.resolve("Species", name)[1])
     st = [f for f in fl.facts if f.kind == "attrstore" and f.target == "_alias"]
     out = {"ok": False, "sanitises": False, "line": fn.lineno}
     if not st:
@@ -118,8 +151,8 @@ def _alias_rule(ctx, pkg):
     parts = None
     if v[0] == "meth" and v[2] == "format" and v[1][0] == "const" and re.fullmatch(r"(\{\})+", v[1][1] or ""):
         parts = list(v[3])
-    elif v[0] == "fstr":
-        parts = [p[1] if p[0] == "fmt" else p for p in v[1]]
+    elif v[0] == "fstr" or (v[0] == "binop" and v[1] == "Add"):
+        parts = [p[1] if p[0] == "fmt" else p for p in _concat_parts(v)]
     if not parts or len(parts) < 3:
         ctx.unrec("R6", "Species.alias", (SP, st[0].line), f"alias is not <phase><basename><charge suffix>: {show(v)[:100]}")
         return out
@@ -147,7 +180,7 @@ def _alias_rule(ctx, pkg):
               expected="'I' * (self.charge + 1) if self.charge >= 0 else 'M' * abs(self.charge)", found=show(suffix)[:120])
     out["ok"] = phase == want_phase and ok_suffix
     out["base"] = base
-    src = ast.unparse(fn)
+    src = "\n".join(ast.unparse(f) for f in method_closure(pkg, "Species", fn))
     out["sanitises"] = bool(re.search(r"re\.sub\(|\.translate\(|isalnum|isidentifier", src))
     return out
 
@@ -178,7 +211,7 @@ def fold(v, env, flow=None):
     if k == "cmp" and len(v[1]) == 1:
         a, b = fold(v[2][0], env, flow), fold(v[2][1], env, flow)
         return {"Lt": a < b, "LtE": a <= b, "Gt": a > b, "GtE": a >= b, "Eq": a == b, "NotEq": a != b}[v[1][0]]
-    if k == "ifexp":
+    if k in ("ifexp", "phi"):        # phi: the two returns of an inlined helper `if c: return a` / `return b`
         return fold(v[2], env, flow) if fold(v[1], env, flow) else fold(v[3], env, flow)
     if k == "call" and v[1] == ("global", "abs") and len(v[2]) == 1:
         return abs(fold(v[2][0], env, flow))
@@ -241,8 +274,9 @@ def _r2(ctx, pkg):
     afn = pkg.method("Species", "alias")
     eqf = pkg.method("Species", "__eq__")
     ctx.saw(SP, "Species.basename")
-    bsrc = ast.unparse(bfn)
-    asrc = ast.unparse(afn)
+    # what the two properties compute may sit in helper methods they call
+    bsrc = "\n".join(ast.unparse(f) for f in method_closure(pkg, "Species", bfn))
+    asrc = "\n".join(ast.unparse(f) for f in method_closure(pkg, "Species", afn))
     disj, _ = eq_disjuncts(eqf)
     ice = [d for d in disj if ("both", "is_surface") in d]
     compared = {l[1] for d in ice for l in d if l[0] == "eq"}
@@ -917,6 +951,9 @@ MUTANTS = [
     {"name": "alias-I-times-charge", "file": SP, "old": '"I" * (self.charge + 1) if self.charge >= 0', "new": '"I" * self.charge if self.charge >= 0', "rules": ["R6"]},
     {"name": "alias-strip-nonword", "file": SP, "old": "        return self._alias\n\n    @alias.setter", "new": "        self._alias = re.sub(r'\\W', '', self._alias)\n        return self._alias\n\n    @alias.setter", "rules": ["R6"]},
     {"name": "alias-strip-star-inline", "file": SP, "old": '"M" * abs(self.charge),\n            )', "new": '"M" * abs(self.charge),\n            ).replace("*", "")', "rules": ["R6"]},
+    {"name": "alias-suffix-helper-single-M", "edits": [
+        {"file": SP, "old": '                "I" * (self.charge + 1) if self.charge >= 0 else "M" * abs(self.charge),\n', "new": "                self._charge_run(),\n"},
+        {"file": SP, "old": "    @alias.setter\n", "new": '    def _charge_run(self):\n        q = self.charge\n        if q >= 0:\n            return "I" * (q + 1)\n        return "M"\n\n    @alias.setter\n'}], "rules": ["R6"]},
     {"name": "alias-single-M", "file": SP, "old": 'else "M" * abs(self.charge),', "new": 'else "M",', "rules": ["R6"]},
     {"name": "grackle-HeII", "file": PATCH, "old": '        "HeII",\n        "HeIII",', "new": '        "HeI",\n        "HeIII",', "rules": ["R6"]},
     {"name": "wrapper-set-deleted", "file": WRAP, "old": "        {% set specnum = species.network | map(attribute='alias') | map('suffix', \"Num\") -%}\n        {% for s, n in zip(network.species, specnum) -%}\n          BaryonField", "new": "        {% for s, n in zip(network.species, specnum) -%}\n          BaryonField", "rules": ["R8"]},
@@ -938,6 +975,10 @@ BENIGN = [
         {"file": NETF, "old": "        speclist = sorted(speclist, key=lambda x: (len(connection[x]), x))\n\n        return speclist\n",
          "new": "        def by_connectivity(sp):\n            return len(connection[sp]), sp\n\n        return sorted(speclist, key=by_connectivity)\n\n"
                 "    def _members_by_name(self):\n        members = self._reactants.union(self._products) | set(self._required_species)\n        return sorted(members)\n"}]},
+    {"name": "alias-concatenated-with-suffix-helper", "edits": [
+        {"file": SP, "old": '            self._alias = "{}{}{}".format(\n                "G" if self.is_surface else "",\n                basename,\n                "I" * (self.charge + 1) if self.charge >= 0 else "M" * abs(self.charge),\n            )\n',
+         "new": '            prefix = "G" if self.is_surface else ""\n            self._alias = prefix + basename + self._charge_run()\n'},
+        {"file": SP, "old": "    @alias.setter\n", "new": '    def _charge_run(self):\n        q = self.charge\n        if q >= 0:\n            return "I" * (q + 1)\n        return "M" * abs(q)\n\n    @alias.setter\n'}]},
     {"name": "elem-symbol-through-set", "file": MACROS, "old": "{% for spec in network.elements %}\n#define IDX_ELEM_{{ spec.element_count.keys() | first }} {{ loop.index0 }}",
      "new": "{% for elem in network.elements %}\n{% set symbol = elem.element_count | first %}\n#define IDX_ELEM_{{ symbol }} {{ loop.index0 }}"},
     {"name": "index-macro", "edits": [
